@@ -15,6 +15,7 @@ EXPLANATION = (
     " R11.3 measure_precision: the running minimum starts at the sentinel, is replaced only by a sample that compared Less, zero samples never reach the comparison, the minimum is returned only after a comparison with a measured sample, and Timer::precision caches per kind what measure_precision returned.")
 EXPLANATION += (" R11.4 every per-timer measurement Timer caches in a static (precision, sample-loop overhead, bench overheads) is cached in a slot selected by self.kind().")
 EXPLANATION += (' R11.3 also: Timer::precision hands out the cached measure_precision value as measured (no conversion and back).')
+EXPLANATION += (' R11.5 Timestamp::duration_since is a pure dispatch on the variants.')
 NOT_DECIDED = ["monotonicity / additivity (consequences of the formula, not checked separately)",
                "the precision clause beyond R11.3: that the probing converges on a given uniform-step clock is a run-time matter; R11.3 decides that what is "
                "reported is the smallest non-zero difference observed and never the sentinel"]
